@@ -25,6 +25,25 @@ import numpy as np
 import vf
 
 NAME_OK = re.compile(r'^[A-Za-z0-9 ]+$')
+CASE_SECONDS = 30          # a single minc / embed call on a grid of <= 250 blocks takes milliseconds
+
+
+class CaseTimeout(BaseException):
+    pass
+
+
+import contextlib, signal
+
+
+@contextlib.contextmanager
+def time_limit(sec):
+    """turn a call that does not return into an exception (the workers run in the main thread of their process)"""
+    def handler(sig, frm): raise CaseTimeout()
+    old = signal.signal(signal.SIGALRM, handler)
+    signal.alarm(sec)
+    try: yield
+    finally:
+        signal.alarm(0); signal.signal(signal.SIGALRM, old)
 
 
 def _impl():
@@ -470,6 +489,7 @@ def minc_worker(args):
     T = _impl()
     lines, cases, expects = [], [], []
     for ci in range(ncases):
+        if st.failn.get('minc:does-not-return'): break          # one hanging call per worker is enough
         params = random_geo_params(rng, rng.choice(sizes))
         params = params[:7] + (False,)
         try: geo, g = build(params)
@@ -494,7 +514,11 @@ def minc_worker(args):
         case = {'geo': list(params), 'volume_fractions': fr, 'spacing': spacing, 'num_fracture_planes': nplanes,
                 'blocks': None if sel is None else [b if isinstance(b, str) else b.name for b in sel],
                 'blocks_as_objects': bool(sel) and not isinstance(sel[0], str), 'atmos_volume': atmos_volume}
-        try: d_, a_ = probe_minc_geometry(T, fr, spacing, nplanes)
+        try:
+            with time_limit(CASE_SECONDS): d_, a_ = probe_minc_geometry(T, fr, spacing, nplanes)
+        except CaseTimeout:
+            st.cases += 1
+            st.failure('minc:does-not-return', case, 'minc on a one-block grid did not return within %d s' % CASE_SECONDS, 'minc completes'); continue
         except Exception as e:
             st.skipped['minc-geometry-raises:' + exn_name(e)] += 1; continue
         st.kinds['levels:%d' % nlev] += 1; st.kinds['planes:%d' % nplanes] += 1
@@ -531,7 +555,10 @@ def minc_check(g, case, sel):
     selnames = order if sel is None else [b if isinstance(b, str) else b.name for b in sel]
     atm = case['atmos_volume']
     try:
-        g.minc(list(fr), spacing=case['spacing'], num_fracture_planes=case['num_fracture_planes'], blocks=sel, atmos_volume=atm)
+        with time_limit(CASE_SECONDS):
+            g.minc(list(fr), spacing=case['spacing'], num_fracture_planes=case['num_fracture_planes'], blocks=sel, atmos_volume=atm)
+    except CaseTimeout:
+        return [('minc:does-not-return', 'minc did not return within %d s' % CASE_SECONDS, 'minc completes')], 'Timeout'
     except Exception as e:
         # duplicate matrix block names are a documented refusal; anything else is reported
         if type(e) is Exception and 'Duplicate MINC matrix block name' in str(e): return [], exn_name(e)
@@ -624,6 +651,7 @@ def embed_worker(args):
         except Exception as e:
             st.skipped['geometry-construction-failed:' + exn_name(e)] += 1; continue
         if any(not NAME_OK.match(b.name) for b in g.blocklist): st.skipped['name-alphabet'] += 1; continue
+        if st.failn.get('embed:does-not-return'): break
         case = {'geo': list(params), 'sub': [rng.randint(1, 2), rng.randint(1, 2), rng.randint(1, 2), rng.choice([0.5, 1., 2., 4.])],
                 'convention': rng.choice([0, 1, 2]), 'collide': rng.random() < 0.12, 'host': rng.choice(g.blocklist).name,
                 'distances': [rng.uniform(0.1, 5.), rng.uniform(0.1, 2.)], 'area': rng.uniform(0.1, 10.)}
@@ -640,8 +668,10 @@ def embed_worker(args):
         line = 'E\t' + '\t'.join(qgrid_fields(g) + ['sub'] + qgrid_fields(sub) + [','.join(
             ['em', hx(host.name), hx(inner.name), qtok(con.distance[0]), qtok(con.distance[1]), qtok(con.area), hx(tok(con.direction)), hx(tok(con.dircos))])])
         try:
-            with contextlib.redirect_stdout(io.StringIO()):
+            with contextlib.redirect_stdout(io.StringIO()), time_limit(CASE_SECONDS):
                 r = g.embed(sub, con)
+        except CaseTimeout:
+            st.failure('embed:does-not-return', case, 'embed did not return within %d s' % CASE_SECONDS, 'embed returns a grid or None'); continue
         except Exception as e:
             st.failure('embed:raises', case, 'raised %s: %s' % (exn_name(e), str(e)[:200]), 'embed returns a grid or None')
             lines.append(line); cases.append(case); expects.append('E:' + exn_name(e)); continue
